@@ -277,7 +277,12 @@ def run_check(prop_id, tier, seed):
     stale = []
     for kid, k in sorted(known.items()):
         try:
-            rep = mod.replay_finding(ctx, k)
+            try:
+                from .props import _extra
+                extra_replay = _extra.EXTRA_FINDING_REPLAYS.get(kid)
+            except ImportError:
+                extra_replay = None
+            rep = extra_replay(ctx, k) if extra_replay else mod.replay_finding(ctx, k)
         except Exception as ex:
             rep = None
             ctx.note('replay of %s raised %r' % (kid, ex))
